@@ -112,10 +112,17 @@ proof fn lemma_frames_concat(m1: Message, m2: Message, rest: Seq<u8>)
 
 def run(run, replay=None):
     run.fallbacks.append(("MessageStream framing", lambda: cex_mod().find(run, {}, skip_known=True)))
+    from units.C25 import pyserver
+    run.explorations.append(("Python MessageStream", lambda: pyserver.explore(run)))
+    from vlib.extract import Source as _S
+    import hashlib
+    _cls, _text = pyserver.load_class(run.repo)
+    run.functions.append({"item": "class MessageStream (recv_msg, send_msg)", "file": "src/scripts/repl_server.py", "lines": "-", "sha256": hashlib.sha256((_text or '').encode()).hexdigest()[:16],
+                          "unit_label": "Python MessageStream: BOUNDED run-time-checked contract only (no deductive verifier for Python here)"})
     unit = build(run)
     res = unit.run(rlimit=60)
     run.add_verus(unit, res, cex_finder=lambda f: find_cex(run, f))
-    run.assumptions.append("Read::read_exact / Write::write_all obey their std contracts on the transport (this is what makes decoding independent of how the byte stream is split into reads); the Python server (src/scripts/repl_server.py, socket.recv(3) may return fewer bytes) and DummyVM::eval's history are not carried.")
+    run.assumptions.append("Read::read_exact / Write::write_all obey their std contracts on the transport (this is what makes decoding independent of how the byte stream is split into reads); DummyVM::eval's history is not carried. The Python server's MessageStream (src/scripts/repl_server.py) is covered only by a BOUNDED run-time-checked contract (coverage.bounded_contract_on_python_message_stream): its class text is extracted from the real file and run over a fake socket that delivers and accepts partial buffers.")
 
 
 def cex_mod():
